@@ -343,6 +343,84 @@ theorem truncated_prefix (iw : List Nat) (chan full : List Int) (h0 : chan.lengt
 example : pixelsSpec [1, 2, 3] ([1, 2, 1, 1, 2].take 3) = (pixelsSpec [1, 2, 3, 4, 5] [1, 2, 1, 1, 2]).take 1 := by
   decide
 
+/-! ## 5b. The functions the driver runs, end to end -/
+
+/-- `Kymo.get_image(colour)` for a full-length channel: shape `P × ⌈#boundaries / P⌉`, entries those
+    of `kymoImage` applied to the specification pixels (see `kymo_placement`). -/
+theorem kymo_get_image (P : Nat) (hP : 0 < P) (iw : List Nat) (chan : List Int)
+    (h : chan.length = iw.length) (h0 : chan.length ≠ 0) (hb : iw.count 2 ≠ 0) :
+    kymoGetImage P iw chan =
+      .ok ⟨[P, (iw.count 2 + P - 1) / P], (kymoImage P (pixelsSpec chan iw)).flatten⟩ := by
+  unfold kymoGetImage
+  rw [full_channel iw chan h h0, reconstructSum_spec]
+  simp only [h, ne_eq, not_true_eq_false, if_false, hb]
+  have hsh := kymo_shape P hP (pixelsSpec chan iw)
+  rw [pixels_count chan iw h] at hsh
+  have hrow : rowLen (kymoImage P (pixelsSpec chan iw)) = (iw.count 2 + P - 1) / P := by
+    unfold rowLen
+    cases hk : kymoImage P (pixelsSpec chan iw) with
+    | nil => rw [hk] at hsh; simp at hsh; omega
+    | cons row rest => rw [hk] at hsh; simpa using hsh.2 row (by simp)
+  rw [hsh.1, hrow]
+
+example : kymoGetImage 2 [0, 1, 2, 2, 0, 1, 2] [9, 1, 2, 3, 9, 4, 5] = .ok ⟨[2, 2], [3, 9, 3, 0]⟩ := by
+  decide
+
+/-- `Scan.get_image(colour)` for a full-length channel and two distinct scan axes with at least two
+    pixels each: `F = ⌈#boundaries / (L·P)⌉` frames (the frame axis is squeezed away when `F = 1`),
+    each `L × P`, or `P × L` when the fast axis is the higher one; entries those of `scanFrames`
+    applied to the specification pixels (see `scan_placement_*`). -/
+theorem scan_get_image (fa P sa L : Nat) (hax : fa ≠ sa) (hP : 2 ≤ P) (hL : 2 ≤ L) (iw : List Nat)
+    (chan : List Int) (h : chan.length = iw.length) (h0 : chan.length ≠ 0) (hb : iw.count 2 ≠ 0) :
+    scanGetImage [(fa, P), (sa, L)] iw chan =
+      .ok ⟨(if (iw.count 2 + L * P - 1) / (L * P) = 1 then [] else [(iw.count 2 + L * P - 1) / (L * P)])
+            ++ (if sa < fa then [P, L] else [L, P]),
+          (scanFrames L P (decide (sa < fa)) (pixelsSpec chan iw)).flatten.flatten⟩ := by
+  obtain ⟨m1, m2, m3, _⟩ := scan_axes_meta fa P sa L hax
+  unfold scanGetImage
+  simp only [m1, m2, m3]
+  rw [full_channel iw chan h h0, reconstructSum_spec]
+  simp only [h, ne_eq, not_true_eq_false, if_false, hb]
+  have hsh := scan_shape L P (by omega) (by omega) (decide (sa < fa)) (pixelsSpec chan iw)
+  rw [pixels_count chan iw h] at hsh
+  congr 1
+  cases hk : scanFrames L P (decide (sa < fa)) (pixelsSpec chan iw) with
+  | nil =>
+    rw [hk] at hsh
+    have hLP : 0 < L * P := Nat.mul_pos (by omega) (by omega)
+    have := ceil_div_spec (iw.count 2) (L * P) hLP
+    have h1 := hsh.1
+    simp only [List.length_nil] at h1
+    rw [← h1] at this
+    omega
+  | cons fr rest =>
+    rw [hk] at hsh
+    obtain ⟨hlen, hfr⟩ := hsh
+    have hfr0 := hfr fr (by simp)
+    have hrows : fr.length = if sa < fa then P else L := by simpa using hfr0.1
+    have hcols : rowLen fr = if sa < fa then L else P := by
+      unfold rowLen
+      cases hf : fr with
+      | nil => rw [hf] at hrows; simp at hrows; split at hrows <;> omega
+      | cons row _ =>
+        have := hfr0.2 row (by rw [hf]; simp)
+        simpa using this
+    simp only [List.head?_cons, Option.map_some, Option.getD_some, hrows, hcols, ← hlen]
+    unfold squeezeShape
+    have hP1 : (P != 1) = true := by rw [bne_iff_ne]; omega
+    have hL1 : (L != 1) = true := by rw [bne_iff_ne]; omega
+    generalize (fr :: rest).length = F
+    by_cases hflip : sa < fa <;> by_cases hF : F = 1
+    · subst hF; simp [List.filter_cons, hflip, hP1, hL1]
+    · have hF1 : (F != 1) = true := by rw [bne_iff_ne]; exact hF
+      simp [List.filter_cons, hflip, hP1, hL1, hF1, hF]
+    · subst hF; simp [List.filter_cons, hflip, hP1, hL1]
+    · have hF1 : (F != 1) = true := by rw [bne_iff_ne]; exact hF
+      simp [List.filter_cons, hflip, hP1, hL1, hF1, hF]
+
+example : scanGetImage [(1, 2), (0, 2)] [1, 2, 2, 0, 2, 2, 2] [1, 2, 3, 9, 4, 5, 6]
+    = .ok ⟨[2, 2, 2], [3, 4, 3, 5, 6, 0, 0, 0]⟩ := by decide
+
 /-! ## 6. (ext) Cutting the stream at a pixel boundary cuts the pixel list at the same place -/
 
 theorem segment_reconstruct (s₁ s₂ : List Sample) (h : s₁ = [] ∨ ∃ init d, s₁ = init ++ [(d, 2)]) :
